@@ -60,6 +60,8 @@ class C04(Prop):
                 fails.append(f"lookup: per-column lookup raised {rec['by_name']}")
             elif rec["by_name"] != units:
                 fails.append(f"positional-vs-by-name: units {units} but per-column lookup {rec['by_name']} for {names}")
+            if rec.get("format_fail"):
+                fails.append("display-format: " + rec["format_fail"])
             if "writer_exc" in rec:
                 fails.append(f"writer: {rec['writer_exc']}")
             else:
